@@ -88,7 +88,7 @@ Print Assumptions C03_glue_interval_loop.
 Close Scope string_scope.
 
 (** ---- more bodies REGENERATED as glue terms and proved equal to the model (leaves: Model/GlueLeaves2.v) ---- *)
-From TW Require Import Model.GlueLeaves2 Gen.MatchGlue Gen.UtilsGlue Proofs.GlueMoreProofs.
+From TW Require Import Model.GlueLeaves2 Gen.MatchGlue Proofs.GlueKernelProofs.
 Open Scope string_scope.
 (** _integral_matching_stretch (no smoothing): method check, current integral, weights (the two-point special case), the rule
     dispatch for y_hat, the final update — as regenerated — are the model's stretch_res, wherever the model's divisions are defined *)
